@@ -28,21 +28,34 @@ func main() {
 			driver.Opt("fields-no-pointers", "struct_fields_always_pointers: false\n"),
 		)
 	}
+	// second probe schema (nested lists, object-valued struct fields, method-bound fields
+	// with and without context, map-backed model): fault points on those code paths
+	shapeCfgs := []driver.ProbeConfig{driver.CfgDefault, driver.CfgWorker1}
+	if c.Tier == "thorough" {
+		shapeCfgs = append(shapeCfgs, driver.CfgFollowSchema, driver.CfgFieldDir,
+			driver.Opt("resolvers-no-pointers", "resolvers_always_return_pointers: false\n"))
+	}
 	t0 := time.Now()
-	builds := driver.BuildAll("exec", cfgs)
+	all := driver.BuildBoth(cfgs, shapeCfgs)
+	var builds []driver.Built
+	for _, b := range all {
+		if b.Probe == "exec" {
+			builds = append(builds, b)
+		}
+	}
 	c.Cov["build_s"] = time.Since(t0).Seconds()
-	for _, b := range builds {
+	for _, b := range all {
 		if b.Err != nil {
 			probe.Cleanup()
 			common.Broken("config %s: %v", b.Cfg.Name, b.Err)
 		}
 	}
 	if rp := common.ReplayArg(); rp != "" {
-		code := driver.Replay(builds, rp)
+		code := driver.Replay(all, rp)
 		probe.Cleanup()
 		os.Exit(code)
 	}
-	results := driver.RunMass("C04", c.Tier, builds, budget)
+	results := driver.RunMass("C04", c.Tier, all, budget)
 	driver.Report(c, results)
 	// transport / multi-payload fault scenarios, explored with a small preemption bound
 	sts := driver.RunSched("C04", c.Tier, builds, 60*time.Second)
@@ -65,7 +78,7 @@ func main() {
 		c.Cov["evaluations"] = v + sexec
 	}
 	c.Cov["rule"] = "fault enumeration: every operation of the enumerated space (<= N nodes) and of a hand-written fault corpus, times every single fault point of its reference run - each resolver call, each @fd directive call, each field-interceptor call, each custom-scalar argument unmarshal - times {error, panic} (plus the null / list-length / concrete-type deviations of C01), in several worker_limit and layout configurations; a case is non-trivial when it invoked a resolver or carries a fault; oracle: response equals the reference with that position failing (null + one error at its path, ordinary propagation, everything else unchanged), recover hook invoked exactly once per injected panic, no panic escapes any goroutine (crash state of the controlled runtime)"
-	c.Cov["bounds"] = map[string]any{"tier": c.Tier, "configs": len(cfgs)}
+	c.Cov["bounds"] = map[string]any{"tier": c.Tier, "configs": len(cfgs), "shapes_configs": len(shapeCfgs)}
 	c.Assume = []string{
 		"default schedule per case (interleavings of failing siblings are explored by C06's corpus)",
 		"serialization-time panics, subscription events and deferred groups are exercised by the transport scenarios of this check (see scenario_results)",
